@@ -520,6 +520,7 @@ def c01(ctx):
     engine_family(ctx, "c02", {"status", "where", "converse"}, n_quick=250, n_thorough=8000, golden=False)
     # "wherever it occurs" includes code that an earlier change of the same patch produced: chains, mostly through the binary
     engine_family(ctx, "c09", {"status", "where"}, n_quick=150, n_thorough=4000, golden=False, cli_n=(80, 1500))
+    very_large_patterns(ctx, {"status", "where", "converse", "decisions"})
     ctx.rule = rule + (" A second batch uses generator mode c02 (repeated metavariables with identical, almost identical and different "
                        "fillers), a third one mode c09 (chains of changes in which a later change matches only what an earlier one produced).")
 
@@ -590,12 +591,34 @@ def kinds_and_names_family(ctx, checks):
     engine_projection(ctx, res, checks)
     cli_projection(ctx, res, checks, len(res) if ctx.tier != "quick" else 30)
 
+def very_large_patterns(ctx, checks):
+    """patterns that record hundreds of values while they match (a whole function with dozens of statements, a call with a
+    hundred arguments): a metavariable used at the start and again at the end still stands for one piece of code"""
+    cases = []
+    for n in (20, 30, 45, 70, 140):
+        stmts = "".join(f"\tstep{i}(a, {i})\n" for i in range(n))
+        patch = (f"@@\nvar a expression\nvar f identifier\n@@\n-func f() {{\n-\tbegin(a)\n" + "".join("-" + l + "\n" for l in stmts.rstrip("\n").split("\n"))
+                 + f"-\tend(a)\n-}}\n+func f() {{ runAll(a, {n}) }}\n")
+        for tag, first, last in (("same", "cfg", "cfg"), ("other", "cfg", "alt"), ("same-selector", "c.cfg", "c.cfg"), ("other-selector", "c.cfg", "c.alt")):
+            body = lambda v: stmts.replace("(a,", f"({v},")
+            src = f"package a\n\nfunc setup() {{\n\tbegin({first})\n{body(first)}\tend({last})\n}}\n"
+            cases.append({"id": f"large{n}-{tag}", "patches": [patch], "src": src})
+        args = ", ".join(f"w{i}" for i in range(n))
+        p2 = f"@@\nvar m expression\n@@\n-wide(m, {args}, m)\n+narrow(m)\n"
+        cases.append({"id": f"wide{n}-same", "patches": [p2], "src": f"package a\n\nfunc f() {{\n\twide(x.y, {args}, x.y)\n}}\n"})
+        cases.append({"id": f"wide{n}-other", "patches": [p2], "src": f"package a\n\nfunc f() {{\n\twide(x.y, {args}, x.z)\n}}\n"})
+    res = run_engine_batch(ctx, ["-inputs", write_jsonl(ctx, cases)], "large")
+    ctx.count("very_large_pattern_cases", len(res))
+    engine_projection(ctx, res, checks)
+    cli_projection(ctx, res, checks - {"converse"}, len(res))
+
 @prop("C02")
 def c02(ctx):
     engine_family(ctx, "c02", {"decisions", "where"})
     rule = ctx.rule
     c02_generated_sites(ctx)
     kinds_and_names_family(ctx, {"decisions", "where", "content"})
+    very_large_patterns(ctx, {"decisions", "where", "content"})
     ctx.rule = rule + (" A directed family runs two changes of which the second binds its metavariables at several sites inside "
                        "code the first one generated (equal and different fillers, also of equal length; as two patch files and as one).")
 
@@ -791,7 +814,8 @@ def make_scenarios(ctx, cases, n, rng, kinds):
             files[nm] = other["src"]
         note = []
         if "unparseable" in kinds and rng.random() < 0.35:
-            files[rng.choice(["a/bad.go", "zbad.go", "0bad.go"])] = UNPARSEABLE
+            # a syntax error after the package clause, or no package clause at all (an empty placeholder, a template)
+            files[rng.choice(["a/bad.go", "zbad.go", "0bad.go"])] = rng.choice([UNPARSEABLE, UNPARSEABLE, "", "func orphan() {}\n"])
             note.append("unparseable")
         if "odd" in kinds and rng.random() < 0.8:
             # (a file whose name starts with ro_ is made read-only by setup_scenario: nothing has to be written to it)
@@ -835,6 +859,12 @@ def corpus_scenarios(pid):
 
 def setup_scenario(ctx, sc):
     root = ctx.scratch(sc.id)
+    # files that consist of a package clause and nothing else (a doc.go, a generated stub behind a build constraint): Go files
+    # like any other - processed, echoed by --print-only, logged, skipped only when generated and asked for
+    if not getattr(sc, "no_bare_files", False):
+        sc.files.setdefault("zz_doc.go", "// Package zzdoc has nothing but its documentation.\npackage zzdoc\n")
+        sc.files.setdefault("zz_stub_gen.go", "// Code generated by stubgen. DO NOT EDIT.\n\n//go:build !linux\n\npackage zzdoc\n")
+        sc.files.setdefault("zz_bare.go", "package zzdoc\n")
     for i, p in enumerate(sc.patches):
         with open(os.path.join(root, f"p{i}.patch"), "w") as f:
             f.write(p)
@@ -1139,6 +1169,18 @@ def c06(ctx):
                  "b.go": "package a\n\nfunc g() {\n\t" + ("bar(h(2))\n\tbar(p.q)" if k2 == "identifier" else "bar()\n\tbar(v, w)") + "\n}\n",
                  "c.go": "package a\n\nfunc k() {\n\tfoo(T{}, 0)\n\tbar(v)\n}\n"}
         scen.append(Scenario(f"kinds{k}", ["\n".join(two)] if k < 2 else list(two), files, "one name, two kinds, in two changes"))
+    # files that hold only code which differs from the pattern in a token the syntax tree records as a position being there
+    # or not (the "..." of a spread call, the "=" of a type alias, the parentheses of a one-element group): not instances
+    near = [("@@\nvar x expression\n@@\n-logf(x)\n+tracef(x)\n",
+             {"spread.go": "package a\n\nfunc f(parts ...any) {\n\tlogf(parts...)\n}\n", "plain.go": "package a\n\nfunc g() {\n\tlogf(1)\n}\n"}),
+            ("@@\n@@\n-type Celsius int\n+type Celsius float64\n",
+             {"alias.go": "package a\n\ntype Celsius = int\n", "def.go": "package a\n\ntype Celsius int\n"}),
+            ("@@\nvar x, y expression\n@@\n-logf(x, y...)\n+tracef(x, y...)\n",
+             {"nospread.go": "package a\n\nfunc f(p []any) {\n\tlogf(1, p)\n}\n", "spread.go": "package a\n\nfunc g(p []any) {\n\tlogf(1, p...)\n}\n"}),
+            ("@@\n@@\n-type Alias = int\n+type Alias = int64\n",
+             {"def.go": "package a\n\ntype Alias int\n", "alias.go": "package a\n\ntype Alias = int\n"})]
+    for k, (np, nfiles) in enumerate(near):
+        scen.append(Scenario(f"posonly{k}", [np], dict(nfiles), "code that differs from the pattern in a position-only token"))
     scen += corpus_scenarios("C06")
     decisions.update(model_decisions(ctx, scen))
     library_reuse_family(ctx, "C06: a source no change applies to comes back as it is, with no error, whatever was applied before")
@@ -1876,6 +1918,18 @@ def c14(ctx):
         scen.append(Scenario(f"twopkg{gi}", [gp], files, "two packages in one directory, package-guarded patch"))
         scen.append(Scenario(f"twopkg{gi}b", [gp, "@@\nvar x expression\n@@\n package " + other + "\n\n-setup(x)\n+setupO(x)\n"], files,
                              "two packages in one directory, one guarded patch for each"))
+    # a cgo file, a generated file and a file with a byte order mark in front of files whose result depends on how imports are
+    # formatted afterwards: what one file is says nothing about how the next one is treated
+    imp_patch = "@@\nvar x expression\n@@\n+import \"go.uber.org/thriftrw/ptr\"\n\n-toPtr(x)\n+ptr.String(x)\n"
+    cgo_src = "package a\n\n/*\n#include <stdio.h>\n*/\nimport \"C\"\n\nfunc c() { C.puts(nil) }\n"
+    for k, first in enumerate((cgo_src, cgo_src.replace("func c() { C.puts(nil) }", "func c() { C.puts(nil); toPtr(\"c\") }"),
+                               "// Code generated by x. DO NOT EDIT.\n\npackage a\n\nfunc g() { toPtr(\"g\") }\n",
+                               "\ufeffpackage a\n\nfunc bom() { toPtr(\"b\") }\n")):
+        scen.append(Scenario(f"sticky{k}", [imp_patch],
+                             {"a_first.go": first,
+                              "b.go": "package a\n\nimport (\n\t\"fmt\"\n\t\"os\"\n)\n\nfunc b() { fmt.Println(toPtr(os.Args[0])) }\n",
+                              "c.go": "package a\n\nimport \"strings\"\n\nfunc c2() *string { return toPtr(strings.ToUpper(\"x\")) }\n"},
+                             "a special file first, import edits after it"))
     scen += corpus_scenarios("C14")
     optsets = [["print"], ["diff"], [], ["print", "sg"], ["si"], ["print", "si"]]
     def one(sc):
@@ -2209,7 +2263,8 @@ def c16(ctx):
     scen = []
     for gi, base in enumerate(good):
         for pos, nm in enumerate(["0first.go", "m/middle.go", "zlast.go"]):
-            for kind, content in (("unparseable", UNPARSEABLE),):
+            for kind, content in (("unparseable", UNPARSEABLE), ("empty", ""), ("no-package-clause", "func orphan() {}\n"),
+                                  ("template", "{{ .Header }}\npackage {{ .Name }}\n")):
                 files = {"b.go": base["src"], "m/n.go": base["src"], "y.go": rng.choice(ODD_UNMATCHED)}
                 files[nm] = content
                 scen.append(Scenario(f"g{gi}-{kind}-{pos}", base["patches"], files, f"{kind} at {nm}"))
@@ -3069,6 +3124,21 @@ def c19(ctx):
             if code == 0 or "p.patch" not in e or want not in e or cl.digest(root) != before:
                 ctx.violation(f"CLI on a rejected patch: exit {code}, stderr {e.strip()[:300]!r}; expected non-zero exit, {want} on stderr, nothing rewritten",
                               {"input": {"patch": c["patch"], "files": {"a.go": "package a\n\nfunc f() { foo(1) }\n"}}})
+            # ... whatever the patch file is called: names with a percent sign, blanks, letters outside ASCII, in a directory
+            for pname in ("fix%20ctx.patch", "100%dup.patch", "%s%d%v.patch", "a b.patch", "größe.patch", "sub dir/p%.patch"):
+                os.makedirs(os.path.dirname(os.path.join(root, pname)) or root, exist_ok=True)
+                shutil.copyfile(os.path.join(root, "p.patch"), os.path.join(root, pname))
+                b3 = cl.digest(root)
+                code, out, err = cl.gopatch(ctx.gopatch, root, ["-p", pname, "a.go"])
+                e = err.decode("utf-8", "replace")
+                ctx.evaluations += 1
+                ctx.count("cli_rejected_patch_with_an_unusual_name")
+                want3 = f"{pname}:{c['expect'][0]}:{c['expect'][1]}"
+                if code == 0 or want3 not in e or "%!" in e or cl.digest(root) != b3:
+                    ctx.violation(f"CLI on a rejected patch called {pname!r}: exit {code}, stderr {e.strip()[:300]!r}; expected non-zero exit and "
+                                  f"{want3} on stderr, nothing rewritten", {"input": {"patch": c["patch"], "patch_file_name": pname}})
+                os.remove(os.path.join(root, pname))
+            shutil.rmtree(os.path.join(root, "sub dir"), ignore_errors=True)
             # the position is a position in that patch file, wherever the file comes on the command line: after another
             # patch (its offsets in the shared file set no longer start at 1) and in a -P list
             with open(os.path.join(root, "ok.patch"), "w") as f:
@@ -3270,6 +3340,18 @@ def c13(ctx):
             if f"o{i}" in {b["id"] for b in batch[-400:]} or True:
                 batch.append({"id": f"o{i}p{tag}", "patches": [text], "src": c["src"]})
                 meta_info[f"o{i}p{tag}"] = (f"o{i}", [tag])
+    # the blank identifier among the declared names (last, first, alone on a line of its own): it declares nothing
+    for i, c in enumerate(cases[: (60 if ctx.tier == "quick" else 2000)]):
+        pt = c["patches"][0]
+        mvar = re.search(r"(?m)^var ([\w, ]+) (expression|identifier)$", pt)
+        if not mvar or "`" in pt:
+            continue
+        line = mvar.group(0)
+        for tag, repl in (("blank-name-last", f"var {mvar.group(1)}, _ {mvar.group(2)}"), ("blank-name-first", f"var _, {mvar.group(1)} {mvar.group(2)}"),
+                          ("blank-name-alone", line + "\nvar _ expression"), ("blank-name-alone-first", "var _ identifier\n" + line)):
+            text = pt.replace(line, repl, 1)
+            batch.append({"id": f"o{i}u{tag}", "patches": [text], "src": c["src"]})
+            meta_info[f"o{i}u{tag}"] = (f"o{i}", [tag])
     # two changes whose '+' (or '-') sides are the same text, elision included: in one patch file or in two, the same result
     for ti, (c1, c2, ssrc) in enumerate(SAME_SIDE_TABLE):
         batch.append({"id": f"ss{ti}", "patches": [c1, c2], "src": ssrc})
@@ -3657,6 +3739,18 @@ def c08(ctx):
                 ctx.violation(f"the gopatch binary crashed (exit {code}) on {what}: {err[-300:]}", {"input": {"how": what, "patch": good}})
             elif code == 1 and not err.strip():
                 ctx.violation(f"non-zero exit without a diagnostic on {what}", {"input": {"how": what, "patch": good}})
+    # parentheses written around a metavariable, over code that is parenthesised already (and not): nested parentheses in
+    # what is generated; the run ends, with the tree the model predicts
+    pcases = []
+    psrc = ("package a\n\nfunc f() bool {\n\tif !(a && b) {\n\t\treturn !c\n\t}\n\tuse(neg((x + y)), neg(((z))), neg(w))\n"
+            "\treturn !((a)) || !(f)(1)\n}\n")
+    for k, (m_, p_) in enumerate([("!x", "(x) == false"), ("!x", "((x))"), ("neg(x)", "(x)"), ("neg(x)", "-(x)"), ("neg(x)", "((x) * 2)"),
+                                  ("neg(x)", "twice((x), (x))"), ("!x", "not((((x))))")]):
+        pcases.append({"id": f"paren{k}", "patches": [f"@@\nvar x expression\n@@\n-{m_}\n+{p_}\n"], "src": psrc})
+    pres = run_engine_batch(ctx, ["-inputs", write_jsonl(ctx, pcases)], "c08paren")
+    ctx.count("parenthesised_metavariable_cases", len(pres))
+    engine_projection(ctx, pres, {"status", "decisions"})
+    cli_projection(ctx, pres, {"status"}, len(pres))
     # the "..." scanner (augment.find/rewrite) vs the Lean model Fnd.find/rewrite, incl. truncated input
     def sides(patch):
         try:
@@ -3797,6 +3891,29 @@ def c10(ctx):
                             cases.append({"id": cid, "patches": [ptxt], "src": src2})
                             exp[cid] = (expect(pf2, ff2) and pk2 != "other",
                                         f"patch import {pf2}, file import {ff2}, package clause {pk2}, {lay2}, sign '{sg2}', body shape {bi}")
+    # paths that are special to the Go tool are paths like any other to a guard: the cgo pseudo-package, a path with a dot
+    # component, a standard-library package, a path that needs escapes in a Go string
+    for spath in ("C", "unsafe", "gopkg.in/yaml.v3", "example.com/a-b/c_d", "embed"):
+        for fimp in (None, f'"{spath}"', f'_ "{spath}"' if spath != "C" else None):
+            if fimp is None and spath == "C" and False:
+                continue
+            for layout in ("single", "grouped"):
+                patch = f"@@\nvar x expression\n@@\n import \"{spath}\"\n\n-foo(x)\n+bar(x)\n"
+                imports = ([fimp] if fimp else [])
+                if layout == "grouped":
+                    imports = ['"fmt"'] + imports
+                if spath == "C" and fimp:
+                    imp = ("import \"fmt\"\n\n" if layout == "grouped" else "") + "/*\n#include <stdio.h>\n*/\nimport \"C\"\n\n"
+                elif not imports:
+                    imp = ""
+                elif len(imports) == 1:
+                    imp = "import " + imports[0] + "\n\n"
+                else:
+                    imp = "import (\n" + "".join("\t" + i + "\n" for i in imports) + ")\n\n"
+                cid = f"x{k}"
+                k += 1
+                cases.append({"id": cid, "patches": [patch], "src": "package a\n\n" + imp + "func f() {\n\tfoo(1)\n}\n"})
+                exp[cid] = (fimp == f'"{spath}"', f"guard on the path {spath!r}, file imports {fimp}, {layout}")
     d = ctx.scratch("c10")
     pth = os.path.join(d, "in.jsonl")
     with open(pth, "w") as f:
@@ -4693,6 +4810,15 @@ def c17_astdiff_tie(ctx, jobs, untouched=None):
             ctx.count("changelog_strongclear:" + (sx_field(sm[2:], "strongclear") or ["?"])[0])
             if (sx_field(sm[2:], "respects") or ["1"])[0] != "1":
                 ctx.count("changelog_respects_fails")     # reported in full by the interval tie above
+            hc_ = sx_field(sm[2:], "hdrclear")
+            if hc_ is not None:
+                # header_comments_survive_the_filter: every interval starts at NoPos or after the package keyword
+                ctx.count("changelog_header_hypothesis_" + ("holds" if hc_[0] == "1" else "fails"))
+                if hc_[0] != "1":
+                    patches, src = byid.get(sc_[1].rsplit(".", 1)[0], ([""], ""))
+                    ctx.violation(f"a changed interval of step {sc_[1]} starts inside the header of the file (after NoPos, before the package "
+                                  f"keyword): {out}; comments above the package clause are at the mercy of the comment filter",
+                                  {"input": {"patches": patches, "src": src}, "intervals": out, "reproduce": "gopatch -p p0.patch ... --print-only a.go"})
             if out != mod or snd != "1":
                 cbad += 1
                 if cbad <= 3:
